@@ -36,6 +36,7 @@ LOT_BLOCKS = [
     "Lot 1(38.29), Lot 1(39.00)",                    # dup_lot_acreage + dup_lot
     "Lots 5 - 3",                                    # nonsequential_lots
     "N/2 of Lot 1", "N/2 of Lots 1 - 3", "E/2 of Lot 4, Lot 5",
+    "NE/4 of Lot 1", "N/2SW/4 of Lot 3, Lot 4", "W/2E/2 of Lots 2 and 3",
     "L1, L2", "Lots 1 through 4",
 ]
 
@@ -281,6 +282,7 @@ TRACT_WITNESS = {
 }
 
 HANDPICKED = sorted(set(WITNESS.values())) + [
+    "T154N-R97W Sec 14: NE/4 of Lot 1, N/2SW/4 of Lot 3, Lot 4(39.5)\nSec 15: W/2E/2 of Lots 2 and 3, S/2",
     "TI54N-R97W Sec 14: NE/4",       # readable both ways, differently
     "T154N-R97W\nSec 14: NE/4\nSec 15: Northwest Quarter, North Half South West Quarter",
     "T154N-R97W Sec 14: Lots 1, 1, NE/4, NE/4\nSec 15: Lot 1(38.29), Lot 1(39.00)",
